@@ -39,6 +39,9 @@ type c12Op struct {
 }
 
 type c12Case struct {
+	// Burst: every goroutine starts, straight after the barrier, with this same
+	// op (so that first-use paths of one shared structure overlap).
+	Burst    *c12Op    `json:"burst,omitempty"`
 	Programs [][]c12Op `json:"programs"`
 	Repeat   int       `json:"repeat,omitempty"` // replay: run the case this many times
 }
@@ -201,6 +204,14 @@ func runC12(c c12Case) (bool, []string, error) {
 					errs <- fmt.Errorf("goroutine %d: %v", g, err)
 				}
 			}()
+			if c.Burst != nil {
+				for k := 0; k < 3; k++ {
+					if err := protect(func() error { return c12Run(g, *c.Burst, banks) }); err != nil {
+						errs <- fmt.Errorf("goroutine %d burst op (%s): %v", g, c.Burst.Kind, err)
+						return
+					}
+				}
+			}
 			for i, op := range prog {
 				if op.Yield {
 					runtime.Gosched()
@@ -475,6 +486,9 @@ func drawC12(t *rapid.T) c12Case {
 			})
 		}
 		c.Programs = append(c.Programs, p)
+	}
+	if gen.Uniform(t, "burst", 3) == 0 {
+		c.Burst = &c12Op{Kind: kinds[gen.Uniform(t, "burstKind", len(kinds))], Fixture: gen.Uniform(t, "burstFixture", 7), Arg: gen.Uniform(t, "burstArg", 12)}
 	}
 	return c
 }
